@@ -59,6 +59,7 @@ func checkC15(c *Ctx) (string, error) {
 	checkExportedMethodsFirst(c, sp, rtabi)
 	checkDeepEqualSlice(c, rfl)
 	checkFieldFlagInheritance(c, rfl)
+	checkMakeIntNarrows(c, rfl)
 	return "C15 (structural): descriptor layout contract (the structs lib/reflect reads through vs the value lists the compiler emits), kind numbering, preservation of names/tags/embedding through every type rebuild, soundness of the reflect-usage pruning (recognised names exist, each constructor flag retains its kind, dynamic method selection retains all methods), and agreement of the two type-string builders with reflect's spellings incl. the star-aware rendering of element types. NOT decided: the behaviour of the reflect port's algorithms (field search, DeepEqual, conversions, method calls) and fmt verb formatting - these are value-level.", nil
 }
 
